@@ -123,6 +123,7 @@ def run_case(case, drv):
     ws = walks(N, V, L, has)
     res.features.append(f"walk_assignments:{min(len(ws), 50) // 10 * 10}+")
     enc = set()
+    enc_complete = True
     inst = FU.inst_tokens(o, "seq")
     for w in ws:
         x = [0] * n
@@ -164,7 +165,7 @@ def run_case(case, drv):
             res.disagree("decode status", "ok", head)
         if o.strict:
             for v in range(V):
-                t = Fraction(0)
+                t = g["nodes"][0][2]          # the clock starts when the depot opens
                 for p in range(L - 1):
                     a = has[(w[v][p], w[v][p + 1])]
                     nd = g["nodes"][w[v][p + 1]]
@@ -173,12 +174,13 @@ def run_case(case, drv):
                         res.fail("seq:strict-timing", f"strict walk {w[v]} arrives at {nd[0]} at {fs(t)} > {fs(nd[3])}")
                         break
         if len(enc) > 300:
+            enc_complete = False
             break
     if B is not None:
         feas_idx = np.nonzero(B.feasible)[0]
         for i in feas_idx:
             x = tuple(int(t) for t in B.X[int(i)])
-            if x not in enc and len(ws) <= 5000:
+            if x not in enc and len(ws) <= 5000 and enc_complete:
                 res.fail("seq:feasible-not-walk", f"x={list(x)} (tuples {[var[k] for k in range(n) if x[k]]}) satisfies the constraints but is no walk assignment")
                 break
         res.nontrivial = len(feas_idx) >= 1 and len(feas_idx) < len(B.feasible)
